@@ -162,7 +162,7 @@ def probe_merge(seed, per=2):
             site = k.split('@')[0]
             allrefs = [d for d in R.references_in_dump(r[1], S, detail=True) if d[0] == site]
             if site in SELF_NAMED:
-                pim_new = pim[:pim.rfind('[')] + '[' + target + '.MERGE]'
+                pim_new = (pim[:-len(target) - 1] + target + '.MERGE]') if pim.endswith('[' + target + ']') else pim
                 found = [d for d in allrefs if R.path_in_module(d[1]) in (pim, pim_new) and d[4] == index]
             else:
                 found = [d for d in allrefs if R.path_in_module(d[1]) == pim and d[4] == index]
